@@ -50,6 +50,12 @@ type XPerson struct {
 	Active  bool     `xml:"active" json:"active,omitempty"`
 }
 
+// XBlob is a document that is one long run of character data.
+type XBlob struct {
+	XMLName xml.Name `xml:"blob"`
+	Data    []byte   `xml:",chardata"`
+}
+
 type Case struct {
 	Opts   *flamego.RenderOptions `json:"opts"`        // nil = Renderer() without options
 	At     string                 `json:"renderer_at"` // use | group | route
@@ -73,6 +79,10 @@ type Case struct {
 	// its own, installed with Use and configured differently (another charset
 	// and other indentations); the handlers get the nearest one's Render.
 	Outer bool `json:"another_renderer_in_front,omitempty"`
+	// SharedSlice (with options): the options are the element of a slice the
+	// application reuses: after the Renderer under test was built from it, the
+	// element is changed and another Renderer is built from the same slice.
+	SharedSlice bool `json:"options_slice_reused,omitempty"`
 }
 
 func (c Case) value() interface{} {
@@ -98,6 +108,8 @@ func (c Case) value() interface{} {
 		p := *c.Person
 		p.XMLName = xml.Name{Local: "person"}
 		return &p
+	case "xmlblob":
+		return &XBlob{XMLName: xml.Name{Local: "blob"}, Data: []byte(c.raw())}
 	case "xmlempty":
 		switch c.Empty {
 		case "slice":
@@ -122,14 +134,22 @@ func checkCase(c Case) (out evid.Outcome) {
 	f := flamego.NewWithLogger(io.Discard)
 	var renderer flamego.Handler
 	charset, jsonIndent, xmlIndent := "utf-8", "", ""
-	if c.Opts != nil {
+	if c.Opts != nil && c.SharedSlice {
+		list := []flamego.RenderOptions{*c.Opts}
+		renderer = flamego.Renderer(list...)
+		list[0] = flamego.RenderOptions{Charset: "KOI8-R", JSONIndent: "\t\t\t", XMLIndent: "        "}
+		_ = flamego.Renderer(list...)
+		list[0] = flamego.RenderOptions{}
+	} else if c.Opts != nil {
 		renderer = flamego.Renderer(*c.Opts)
+	} else {
+		renderer = flamego.Renderer()
+	}
+	if c.Opts != nil {
 		if c.Opts.Charset != "" {
 			charset = c.Opts.Charset
 		}
 		jsonIndent, xmlIndent = c.Opts.JSONIndent, c.Opts.XMLIndent
-	} else {
-		renderer = flamego.Renderer()
 	}
 	got := make([]bool, c.After)
 	var hs []flamego.Handler
@@ -154,7 +174,7 @@ func checkCase(c Case) (out evid.Outcome) {
 			switch c.Kind {
 			case "json", "jsonstruct", "jsonbytes":
 				r.JSON(c.Status, v)
-			case "xml", "xmlempty":
+			case "xml", "xmlempty", "xmlblob":
 				r.XML(c.Status, v)
 			case "binary":
 				r.Binary(c.Status, []byte(c.raw()))
@@ -243,6 +263,8 @@ func checkCase(c Case) (out evid.Outcome) {
 			panic(err)
 		}
 		wantBody = b
+	case "xmlblob":
+		wantCT = "text/xml; charset=" + charset
 	case "xmlempty":
 		// the standard encoder writes nothing for these values (and reports no
 		// error): the status and the content type are still due
@@ -300,6 +322,13 @@ func checkCase(c Case) (out evid.Outcome) {
 			}
 			if xmlIndent == "" && bytes.Contains(doc, []byte(">\n")) {
 				return evid.Fail("xml-indent", "the XML body %q is indented although no indentation is configured; %s", clip(spy.Body), desc)
+			}
+		}
+	} else if c.Kind == "xmlblob" {
+		if !head {
+			var back XBlob
+			if err := xml.Unmarshal(spy.Body, &back); err != nil || !bytes.Equal(back.Data, []byte(c.raw())) {
+				return evid.Fail("xml-roundtrip", "the XML body (%d bytes) of a document with %d bytes of character data does not decode back to it (err %v, %d bytes came back); %s", len(spy.Body), len(c.raw()), err, len(back.Data), clip([]byte(desc)))
 			}
 		}
 	} else if c.Kind == "xmlempty" {
@@ -494,7 +523,7 @@ func genCase(t *rapid.T) Case {
 	c := Case{
 		At:     []string{"use", "group", "route"}[rapid.IntRange(0, 2).Draw(t, "at")],
 		After:  rapid.IntRange(1, 3).Draw(t, "after"),
-		Kind:   []string{"json", "json", "jsonstruct", "xml", "xml", "binary", "text", "xmlempty", "jsonbytes"}[rapid.IntRange(0, 8).Draw(t, "kind")],
+		Kind:   []string{"json", "json", "jsonstruct", "xml", "xml", "binary", "text", "xmlempty", "jsonbytes", "xmlblob"}[rapid.IntRange(0, 9).Draw(t, "kind")],
 		Status: []int{200, 200, 201, 204, 304, 400, 404, 418, 500, 503, 100, 103, 999}[rapid.IntRange(0, 12).Draw(t, "status")],
 		Method: []string{"GET", "GET", "POST", "HEAD"}[rapid.IntRange(0, 3).Draw(t, "method")],
 		Nested: rapid.IntRange(0, 4).Draw(t, "nested") == 0,
@@ -511,6 +540,7 @@ func genCase(t *rapid.T) Case {
 			JSONIndent: []string{"", "", "  ", "\t"}[rapid.IntRange(0, 3).Draw(t, "jindent")],
 			XMLIndent:  []string{"", "", "  ", "\t"}[rapid.IntRange(0, 3).Draw(t, "xindent")],
 		}
+		c.SharedSlice = rapid.IntRange(0, 2).Draw(t, "sharedslice") == 0
 	}
 	switch c.Kind {
 	case "json":
@@ -522,6 +552,9 @@ func genCase(t *rapid.T) Case {
 	case "jsonbytes":
 		c.Empty = []string{"bytes", "named", "rawmessage"}[rapid.IntRange(0, 2).Draw(t, "jbk")]
 		c.Bytes = strconv.QuoteToASCII(string(rapid.SliceOfN(rapid.Byte(), 1, 24).Draw(t, "jbytes")))
+	case "xmlblob":
+		n := []int{10, 4000, 33000, 40000, 70000, 100000}[rapid.IntRange(0, 5).Draw(t, "blobsize")]
+		c.Bytes = strconv.QuoteToASCII(strings.Repeat("blob", n/4))
 	case "xmlempty":
 		c.Empty = []string{"slice", "nilslice", "nilptr"}[rapid.IntRange(0, 2).Draw(t, "emptyk")]
 	case "jsonstruct", "xml":
